@@ -20,7 +20,7 @@ PROPS["C01"] = dict(
     dict(name="c01-k1s", defines=["NCASES=4"], **_c01_common,   # heavier operations: 4 argument tuples per query
          shards={"quick": op_shards([B_TET], [1], [OP_SWAP_V], per=4)[1:2] + op_shards([B_TET], [1], [OP_SWAP_E], per=4)[4:5] + op_shards([B_TET], [1], [OP_SWAP_F], per=4)[1:2]
                         + op_shards([B_TET], [1], [OP_SWAP_C, OP_SET_C, OP_SET_F], per=4) + op_shards([B_TET], [1], [OP_ADD_E, OP_ADD_E_DUP], per=4)[1:2] + op_shards([B_TET], [1], [OP_BU_TOGGLE], per=4)[0:2]
-                        + op_shards([B_LOWDIM], [1], [OP_SET_E], per=4)[19:21] + op_shards([B_LOWDIM], [1], [OP_ADD_F], per=4)[1:3] + op_shards([B_LOWDIM], [0], [OP_SWAP_V, OP_SWAP_E], per=4)[0:3],
+                        + op_shards([B_LOWDIM], [1], [OP_SET_E], per=4)[19:20] + op_shards([B_LOWDIM], [1], [OP_ADD_F], per=4)[1:2] + op_shards([B_LOWDIM], [0], [OP_SWAP_V, OP_SWAP_E], per=4)[0:1],   # trimmed to keep the quick tier well below 900 s
                  "thorough": op_shards([B_TET], [1], _SWAPS + [OP_ADD_E, OP_ADD_E_DUP, OP_BU_TOGGLE, OP_SET_F, OP_SET_C], per=4) + op_shards([B_LOWDIM], [0], [OP_SWAP_V, OP_SWAP_E, OP_ADD_E, OP_ADD_E_DUP, OP_BU_TOGGLE], per=4)
                         + op_shards([B_LOWDIM], [1], [OP_SET_E, OP_ADD_F], per=4) + op_shards([B_TRI2], [1], [OP_SET_E], per=4)[:40]
                         + op_shards([B_TET2_FACE, B_TRI2], [1], _SWAPS + [OP_ADD_E, OP_BU_TOGGLE, OP_SET_F, OP_SET_C], per=4)},
